@@ -257,7 +257,7 @@ Alts(T, main) ==
   IN {[v |-> v] @@ Pred(T, v) : v \in cand}
 Row(T) ==
   LET main == Pred(T, {})
-  IN [d |-> T, cls |-> Classes(T, {}), cdev |-> ClsDev(T), alts |-> Alts(T, main)] @@ main
+  IN [d |-> T, cls |-> Classes(T, {}), cdev |-> ClsDev(T), dcls |-> Classes(T, ClsDev(T)), alts |-> Alts(T, main)] @@ main
 
 (* ------------------------------------------------------------ vocabularies *)
 Sc(t) == [k |-> "s", t |-> t]
